@@ -386,13 +386,46 @@ def freshness_failure(ctx, name, symbols, code, domain, exc):
     msg = repr(exc)
     if not isinstance(exc, Concretization) and "RSym" not in msg and "real number" not in msg and "float" not in msg:
         return False
+    shared = _shared_array_in_traceback(exc)
     try:
         r = two_call_aliasing(code, symbols, domain, ctx.rng)
     except Exception:
+        r = dict(reproduced=False)
+    if not r["reproduced"] and shared is None:
         return False
-    if not r["reproduced"]:
-        return False
+    where = (" -- the array is the module/class level object %s" % shared) if shared else ""
     ctx.add(Ob(name + ".frame.writes_only_arrays_allocated_in_the_call", "f", "failed", "symbolic-execution(frame)", 0.0,
-               "the function writes into an array that pre-exists the call (%s); natively the first result is %s by a second call"
-               % (msg[:120], "changed" if r["first_result_changed_by_second_call"] else "aliased"), cex=r, native=r))
+               "the function writes into an array that pre-exists the call (%s)%s; natively the first result is %s by a second call"
+               % (msg[:120], where, ("changed" if r.get("first_result_changed_by_second_call") else "aliased") if r["reproduced"] else "not visibly affected"),
+               cex=dict(shared_object=shared, two_call_test=r), native=r))
     return True
+
+
+def _shared_array_in_traceback(exc):
+    """If the failing store targeted an ndarray that is reachable from a pyins module global or class
+    attribute, return its qualified name (a definite write to state that outlives the call)."""
+    import sys
+    shared = {}
+    for mname, mod in list(sys.modules.items()):
+        if not mname.startswith("pyins") or mod is None:
+            continue
+        for k, v in list(vars(mod).items()):
+            if isinstance(v, np.ndarray):
+                shared[id(v)] = "%s.%s" % (mname, k)
+            elif isinstance(v, type) and getattr(v, "__module__", "").startswith("pyins"):
+                for ck, cv in list(vars(v).items()):
+                    if isinstance(cv, np.ndarray):
+                        shared[id(cv)] = "%s.%s.%s" % (mname, k, ck)
+    tb = exc.__traceback__
+    while tb is not None:
+        fr = tb.tb_frame
+        if "pyins" in fr.f_code.co_filename:
+            for v in fr.f_locals.values():
+                if isinstance(v, np.ndarray):
+                    base = v
+                    while isinstance(base, np.ndarray):
+                        if id(base) in shared:
+                            return shared[id(base)]
+                        base = base.base
+        tb = tb.tb_next
+    return None
